@@ -606,12 +606,14 @@ func (k Keeper) WithdrawAppReserveFundsFn(ctx sdk.Context, appId, assetId uint64
 		return types.ErrorInvalidAppOrAssetData
 	}
 
-	if appReserveFunds.TokenQuantity.Amount.Sub(tokenQuantity.Amount).GTE(sdk.ZeroInt()) {
-		if tokenQuantity.Amount.GT(sdk.ZeroInt()) {
-			err := k.bank.SendCoinsFromModuleToModule(ctx, types.ModuleName, auctionsV2types.ModuleName, sdk.NewCoins(tokenQuantity))
-			if err != nil {
-				return err
-			}
+	if appReserveFunds.TokenQuantity.Amount.LT(tokenQuantity.Amount) {
+		// low funds: the caller goes on to burn and distribute this amount out of the auction account
+		return types.ErrorInvalidAppOrAssetData
+	}
+	if tokenQuantity.Amount.GT(sdk.ZeroInt()) {
+		err := k.bank.SendCoinsFromModuleToModule(ctx, types.ModuleName, auctionsV2types.ModuleName, sdk.NewCoins(tokenQuantity))
+		if err != nil {
+			return err
 		}
 	}
 	appReserveFunds.TokenQuantity.Amount = appReserveFunds.TokenQuantity.Amount.Sub(tokenQuantity.Amount)
